@@ -132,7 +132,7 @@ Inductive pcl :=
 (* notify *)
 | NTF | N1 | N2 | FN1 | PN1 | PF1
 (* receive *)
-| E0 | E0ret | R1pre | R1 | R2 | R3 | R4 | R5 | R6 | R6b | R7 | R8 | R9 | R10 | KC | R11 | R12
+| E0 | E0ret | R1pre | R1 | R2 | R3 | R1n | R2n | R4 | R5 | R6 | R6b | R7 | R8 | R9 | R10 | KC | R11 | R12
 | V1 | V5 | V6 | VK | V4
 | TRfin | TRfin2 | RVloop | RVafter | RVfin | W0
 (* wait *)
